@@ -155,3 +155,37 @@ def _(case, vio):
 def _(case, vio):
     kind, op, parts = _parts(vio)
     return op == "fillna" and kind == "value" and any(any_node(d, lambda n: n["class"] == "UnmaskedArray") for d in descs_of(case))
+
+
+@known("string_internals_exposed")
+def _(case, vio):
+    return vio.get("clause") == "C11-closure" and ("must be directly inside" in vio.get("message", "") or "must directly contain" in vio.get("message", "")
+                                                   or "must be one-dimensional" in vio.get("message", ""))
+
+
+@known("argsort_with_missing")
+def _(case, vio):
+    kind, op, parts = _parts(vio)
+    return op in ("argsort", "sort") and bool(parts & {"none_leaf", "missing_list"}) and kind in ("value", "closure", "refused", "errorclass")
+
+
+@known("sort_nonlocal_deep")
+def _(case, vio):
+    kind, op, parts = _parts(vio)
+    lb = _levels_below_axis(parts)
+    return op in ("sort", "argsort") and lb is not None and lb >= 2 and kind in ("crash", "value", "closure", "refused", "errorclass")
+
+
+@crash_exclusion("sort_nonlocal_deep")
+def _(spec, desc):
+    if spec["op"] not in ("sort", "argsort"):
+        return False
+    lb = _levels_below_axis(region_of(spec, desc))
+    return lb is not None and lb >= 2
+
+
+@known("argsort_positions_nonlocal")
+def _(case, vio):
+    kind, op, parts = _parts(vio)
+    lb = _levels_below_axis(parts)
+    return op == "argsort" and lb is not None and lb >= 1 and kind in ("value", "errorclass")
